@@ -307,6 +307,12 @@ class ExprBuilder:
             r = self.resolve_call(e, env, self)
             if r is not None:
                 return r
+        if isinstance(e.func, ast.Attribute) and e.func.attr in ("astype", "copy", "flatten", "ravel", "squeeze") :
+            return self.build(e.func.value, env)        # value-preserving conversions
+        if isinstance(e.func, ast.Attribute) and e.func.attr in ("sum", "mean", "min", "max", "std", "any", "all") and not e.args:
+            kws = tuple(sorted((k.arg, ast.unparse(k.value)) for k in e.keywords if k.arg))
+            base = self.build(e.func.value, env)
+            return ('call', e.func.attr, (base,)) if not kws else ('call', e.func.attr, (base,), kws)
         raise Undecided(f"call {ast.unparse(e.func)}")
 
 
